@@ -126,6 +126,9 @@ func (p *tcpProc) HandleConn(conn net.Conn) {
 	}()
 
 	done := make(chan struct{})
+	// both directions have ended
+	finished := make(chan struct{})
+	defer close(finished)
 
 	// close conn when host removed form host set
 	go func() {
@@ -140,7 +143,7 @@ func (p *tcpProc) HandleConn(conn net.Conn) {
 			sconn.Close()
 			cconn.Close()
 			return
-		case <-done:
+		case <-finished:
 			return
 		}
 	}()
